@@ -12,4 +12,4 @@ for ID in "$@"; do
   KV_REPO=$W ./check $ID 2>&1 | grep -E "VIOLATION|KNOWN-FINDING|OK|INFRA|proof obligations" | cut -c1-300
 done
 git -C /repo worktree remove --force $W
-rm -rf /var/tmp/kv-alt
+rm -rf /var/tmp/kv-alt/$(printf "%s" "$W" | sha1sum | cut -c1-10)
